@@ -85,7 +85,7 @@ def work(task):
             if err is not None:
                 if harness.raised_in_checker(err):
                     raise err
-                tag = "[scipy-inverse-search]" if "updating stopped" in str(err) else ""
+                tag = ("[scipy-inverse-search]" + "".join(f"[{n}]" for n in sorted({n for n, _ in specs if n in ("schulz_zimm", "flory_schulz")}))) if "updating stopped" in str(err) else ""
                 tag += "".join("[Mw>=2Mn]" for n, p in specs if n == "schulz_zimm" and p[0] >= 2 * p[1])[:9]
                 viol.append({"key": f"C09/Molecule.generate/safe[{type(err).__name__}]{tag}", "clause": "a block of the declared size is generated",
                              "detail": {"quantile": u, "error": str(err)[:100]}, "input": inp})
